@@ -129,4 +129,17 @@ theorem textOf_clearParent (n : Node) : n.clearParent.textOf = n.textOf := by
   | text => rfl
   | elem i p t a cs => cases cs <;> rfl
 
+theorem self_mem_preorder (n : Node) : n ∈ preorder n := by
+  cases n <;> simp [preorder]
+
+theorem descend_mem_preorder : ∀ n : Node, descend n ∈ preorder n
+  | .text i p t => by simp [descend, preorder]
+  | .elem i p t a [] => by simp [descend, preorder]
+  | .elem i p t a (.text j q s :: r) => by simp [descend, preorder]
+  | .elem i p t a (.elem j q u b cs :: r) => by
+    have ih := descend_mem_preorder (.elem j q u b cs)
+    simp only [descend]
+    simp only [preorder, preorderL, List.mem_cons, List.mem_append]
+    exact Or.inr (Or.inl (by simpa [preorder] using ih))
+
 end AslProofs.Xml
